@@ -47,7 +47,12 @@ def reports(s):
     core, lib = s.core, s.lib
     rows = []; elem = []
     def one(x):
-        return (x.x, x.u, x.df if not math.isnan(x.df) else 'nan', x.label, x.uid)
+        try:
+            df = x.df
+            df = df if not math.isnan(df) else 'nan'
+        except Exception as ex:
+            df = 'raised %s' % type(ex).__name__
+        return (x.x, x.u, df, x.label, x.uid)
     for o in s.objs:
         if isinstance(o, lib.UncertainReal):
             rows.append(one(o))
@@ -197,7 +202,8 @@ def classify_read_refusals(fails, ops):
         if f['kind'] == 'read-refused':
             hist = f['history']
             relabel = any(o[0] == 'result' and o[2] is not None for o in hist)
-            empty = any(o[0] in ('real', 'complex', 'result') and (o[1] if o[0] != 'result' else o[2]) == '' for o in hist)
+            empty = any((o[0] in ('real', 'complex', 'result') and (o[1] if o[0] != 'result' else o[2]) == '') or
+                        (o[0] == 'ens' and any(l == '' for l, _ in o[1])) for o in hist)
             const = any(o[0] in ('const', 'constc') for o in hist)
             part = any(o[0] == 'part' for o in hist)
             xml_doc = any(o[0] == 'write' and o[2] == 'xml' for o in hist)
@@ -236,6 +242,19 @@ def order_check(case_seed):
     DUMP = {'json': pr.dumps_json, 'xml': pr.dumps_xml, 'pickle': pr.dumps}
     LOAD = {'json': pr.loads_json, 'xml': pr.loads_xml, 'pickle': pr.loads}
     docs = []; originals = {}; current = {}; records = []
+    ens = []
+    if rng.random() < 0.5:
+        # a finite-dof ensemble (multiple_ureal): each archive below holds only a PART of it
+        m = rng.randint(3, 4)
+        ens = core.multiple_ureal([10.0 + i for i in range(m)], [0.25 + i / 16.0 for i in range(m)], rng.choice([4, 9]),
+                                  label_seq=['e%d' % i for i in range(m)])
+        script.append('e0..e%d = multiple_ureal([10+i], [0.25+i/16], df=%g)' % (m - 1, ens[0].df))
+        for _ in range(rng.randint(0, 2)):
+            i, j = rng.sample(range(m), 2); r = rng.choice([0.25, 0.5, -0.25])
+            if not any(frozenset((i, j)) == q for q in current.get('_ens', [])):
+                current.setdefault('_ens', []).append(frozenset((i, j)))
+                core.set_correlation(r, ens[i], ens[j]); script.append('set_correlation(%r, e%d, e%d)' % (r, i, j))
+        current.pop('_ens', None)
     same_time = rng.random() < 0.3          # all archives written at one time: nothing declared between the writes
     for t in range(rng.randint(2, 3)):
         for _ in range(rng.randint(0 if t == 0 else 1, 2) if not (same_time and t > 0) else 0):
@@ -249,6 +268,10 @@ def order_check(case_seed):
         i, j, k = (rng.randrange(n) for _ in range(3))
         y = core.result(xs[i] * xs[j] + xs[k], label='y%d' % t)
         ar = pr.Archive(); kw = {'x%d' % m: xs[m] for m in members}; kw['y%d' % t] = y
+        if ens:
+            part = rng.sample(range(len(ens)), rng.randint(1, len(ens) - 1))
+            for m in part: kw['e%d' % m] = ens[m]
+            script.append('  archive %d also holds %s' % (t, sorted('e%d' % m for m in part)))
         ar.add(**kw)
         fmt = rng.choice(['json', 'json', 'xml', 'pickle'])
         docs.append((fmt, DUMP[fmt](ar)))
@@ -256,10 +279,21 @@ def order_check(case_seed):
         held = set(members) | {i, j, k}                     # the leaves this document holds (each with its whole record)
         records.append({pr_: r_ for pr_, r_ in current.items() if pr_ & held})
         script.append('archive %d (%s) <- %s, y%d = result(x%d*x%d + x%d); written' % (t, fmt, sorted('x%d' % m for m in members), t, i, j, k))
+    live_ens = []
     def observe(got):
         keys = sorted(got)
         rep = {kk: (got[kk].x, got[kk].u, got[kk].df, got[kk].label, got[kk].uid) for kk in keys}
+        def rd(f):
+            try: return f()
+            except Exception as ex: return 'raised %s' % type(ex).__name__
+        rep = {kk: (got[kk].x, got[kk].u, rd(lambda: got[kk].df), got[kk].label, got[kk].uid) for kk in keys}
         cov = {(p, q): core.get_covariance(got[p], got[q]) for p in keys for q in keys}
+        # combinations of two numbers (and of a number with a LIVE ensemble member): u and dof
+        for p in keys:
+            for q in keys:
+                if p < q: cov[('sum', p, q)] = (rd(lambda: (got[p] + got[q]).u), rd(lambda: (got[p] + got[q]).df))
+            for i, e in enumerate(live_ens):
+                cov[('live', p, i)] = (rd(lambda: (got[p] * e).u), rd(lambda: (got[p] * e).df))
         return rep, cov
     def load(order, k):
         if k is not None: new_context(k)
@@ -268,10 +302,11 @@ def order_check(case_seed):
             ar = LOAD[docs[d][0]](docs[d][1])
             for tag in ar.keys(): got[(d, tag)] = ar[tag]
         return observe(got)
-    def differ(r1, r2):
+    def differ(r1, r2, common_only=False):
         for part, (a, b) in zip(('report', 'covariance'), zip(r1, r2)):
             for kk in a:
-                if not _close(a[kk], b.get(kk)): return {'what': part, 'of': [list(x) if isinstance(x, tuple) else x for x in kk] if part == 'covariance' else list(kk),
+                if common_only and kk not in b: continue
+                if not _close(a[kk], b.get(kk)): return {'what': part, 'of': repr(kk),
                                                       'first_order': repr(a[kk]), 'other_order': repr(b.get(kk))}
         return None
     nd = len(docs)
@@ -282,12 +317,17 @@ def order_check(case_seed):
     orders = [list(p) for p in itertools.permutations(range(nd))]
     orders += [o + [o[0]] for o in orders[:2]]
     try:
+        live_ens[:] = list(ens)
         ref_alive = observe(originals)
         alive = load(list(range(nd)), None)                         # (b) the shared leaves are alive
+        after_alive = observe(originals)                            # what the LIVE numbers report after the loads
+        live_ens[:] = []
         results = [(o, load(o, k0 + 1 + i)) for i, o in enumerate(orders)]     # (a) fresh sessions
     except Exception as ex:
         if any(f == 'xml' for f, _ in docs) and any(x.label == '' for x in xs): return None
         return {'kind': 'order-load-raises', 'exception': '%s: %s' % (type(ex).__name__, ex), 'case_seed': case_seed, 'script': script}
+    d = differ(ref_alive, after_alive)
+    if d: return {'kind': 'read-changes-live-numbers', 'case_seed': case_seed, 'script': script, 'difference': d}
     d = differ(ref_alive, alive)
     if d: return {'kind': 'reload-differs-from-live-numbers', 'case_seed': case_seed, 'script': script, 'difference': d}
     for o, r in results[1:]:
@@ -298,7 +338,7 @@ def order_check(case_seed):
     if same_time:
         # archives of one moment carry the complete correlation record of every leaf they hold: the covariances
         # among all restored numbers are those of the original numbers
-        d = differ((ref_alive[0], ref_alive[1]), results[0][1])
+        d = differ((ref_alive[0], ref_alive[1]), results[0][1], common_only=True)
         if d and d['what'] == 'covariance':
             return {'kind': 'restored-covariance-differs-from-original', 'case_seed': case_seed, 'script': script,
                     'order': results[0][0], 'difference': d}
@@ -331,7 +371,7 @@ def search(rng, tier, broken):
         tried += 1
         f = run(k0, ops)
         if f: return {'tried': tried, 'failing': f, 'known_kinds_seen': known_seen}
-    for i in range(40 if tier == 'quick' else 400):     # load-order independence across archives written at different times
+    for i in range(100 if tier == 'quick' else 400):     # load-order independence across archives written at different times
         tried += 1
         f = order_check(rng.randrange(10 ** 6))
         if f:
@@ -343,6 +383,8 @@ def search(rng, tier, broken):
             f = run(31, ops)
             if f: return {'tried': tried, 'failing': f, 'known_kinds_seen': known_seen}
     for i in range(n):
+        # (multi-archive reader sessions are the business of order_check: there a newer document legitimately ADDS
+        #  correlations to numbers restored from an older one -- reported, not fed to the purity check)
         s = arch.gen_history(rng, 40 + i % 7, rng.randint(12, 40), rng.random() < 0.2)
         ops = s.ops; k0 = s.k0; s.close(); tried += 1
         if any(o[0] == 'new' and o[1] <= k0 for o in ops): continue       # reused context ids: outside the property
